@@ -144,14 +144,16 @@ func forgedSweeps(c *vh.Ctx) {
 }
 
 // emptyPattern: a random stream description: 0 = zero-length application data record, n > 0 = write of n bytes.
-// More than 32 empty records in total, never more than 32 in a row.
+// More than 40 empty records in total, never more than 24 in a row: the limit of 32 consecutive non-advancing
+// records (maxUselessRecords) also counts post-handshake messages such as TLS 1.3 session tickets that may
+// directly precede a run, so runs stay clear of it.
 func emptyPattern(rng *rand.Rand) []int {
 	var p []int
 	empties := 0
 	for empties <= 40 || len(p) < 30 {
 		run := rng.Intn(4)
 		if rng.Intn(6) == 0 {
-			run = 5 + rng.Intn(28) // up to 32 in a row
+			run = 5 + rng.Intn(20) // up to 24 in a row
 		}
 		for i := 0; i < run; i++ {
 			p = append(p, 0)
@@ -214,7 +216,7 @@ func emptyRecordStreams(c *vh.Ctx) {
 			got, err, pan, pv := readAll(v, r.ID, s, smc.w.Bytes())
 			in["pattern"] = pat
 			if pan || !bytes.Equal(got, want) || err != io.EOF {
-				c.Fail("c25-empty-records/"+key, "data interleaved with zero-length application data records (never more than 32 in a row) does not arrive intact",
+				c.Fail("c25-empty-records/"+key, "data interleaved with zero-length application data records (never more than 24 in a row) does not arrive intact",
 					in, fmt.Sprint(len(got), " of ", len(want), " bytes, err=", err, " panic=", pv), "all bytes, then EOF")
 			}
 			c.Case("empty", fmt.Sprintf("(CEmpty %d %d %d %s %d %s)", v, r.Kind, r.MacSize, patternTerm(pat), len(got), vh.Bool(err != io.EOF || pan)),
